@@ -128,8 +128,9 @@ Definition headers_hold (f : flow) (x : txn) : Prop :=
 (* every required query parameter is present and its (first) value is the required one *)
 Definition query_holds (f : flow) (x : txn) : Prop :=
   forall k v, In (k, v) (f_query f) -> assoc k (t_query x) = Some v.
+(* no status code required, or there IS a response and it carries one of the required codes *)
 Definition status_holds (f : flow) (x : txn) : Prop :=
-  f_status f = [] \/ In (t_status x) (f_status f).
+  f_status f = [] \/ exists st, resp_status x = Some st /\ In st (f_status f).
 (* headers and query are judged on requests, status codes on responses *)
 Definition constraints_hold (f : flow) (x : txn) : Prop :=
   method_holds f x /\
